@@ -34,6 +34,7 @@ ASSUMPTIONS = ["commands queued during the outage may legitimately precede the r
 REQUIRED_OBS = ["reconnects_judged", "refresh_requests_at_open", "converged_after_change",
                 "unchanged_refresh_silent", "poll_requests_predicted_and_seen",
                 "poll_restarted_by_status", "poll_after_reconnection", "flapping_reconnections"]
+SOAK = True   # also judged by the whole-run monitors of the soak sessions (vf/soak.py)
 BUDGET = {"quick": 100, "thorough": 1500}
 
 TAUS = [0.001, 0.5, 1.0, 2.0, 5.0, 29.0, 100.0, 299.0, 299.999, 300.0, 300.001, 301.0, 330.0,
